@@ -82,6 +82,7 @@ func (p *Prog) resolveTypeAndFieldRenames(tab *anchorTable) []string {
 			}
 		}
 		sort.Strings(missing)
+		var weak []*types.TypeName
 		for _, old := range missing {
 			var cands []*types.TypeName
 			for _, n := range scope.Names() {
@@ -104,12 +105,21 @@ func (p *Prog) resolveTypeAndFieldRenames(tab *anchorTable) []string {
 								names++
 							}
 						}
-						if same && names*2 >= len(of) {
-							cands = append(cands, tn)
+						// (with a unique candidate the names do not matter; with several, most names must have been kept)
+						if same {
+							if names*2 >= len(of) {
+								cands = append([]*types.TypeName{tn}, cands...)
+							} else {
+								weak = append(weak, tn)
+							}
 						}
 					}
 				}
 			}
+			if len(cands) == 0 && len(weak) == 1 {
+				cands = weak
+			}
+			weak = nil
 			if len(cands) == 1 {
 				typeAlias[cands[0]] = old
 				notes = append(notes, fmt.Sprintf("type %s.%s no longer exists; %s has the same definition and is analysed in its place", rel, old, cands[0].Name()))
